@@ -210,7 +210,12 @@ func (g *docGen) values(t *amType, depth int) []any {
 		}
 	}
 	if t.Nullable {
-		vs = append(vs, nil)
+		// null right after the first value, so that it survives every truncation of the list
+		if len(vs) > 0 {
+			vs = append([]any{vs[0], nil}, vs[1:]...)
+		} else {
+			vs = []any{nil}
+		}
 	}
 	return vs
 }
@@ -279,6 +284,10 @@ func (g *docGen) validDocs(o *amObject, n int) []amDoc {
 		// keep the first two (full, minimal) and a seeded sample of the rest
 		rest := docs[2:]
 		shuffle(g.rng, rest)
+		// documents holding an explicit null first (rarely reached otherwise), then the seeded sample
+		sort.SliceStable(rest, func(i, j int) bool {
+			return bytes.Contains(rest[i].JSON(), []byte("null")) && !bytes.Contains(rest[j].JSON(), []byte("null"))
+		})
 		docs = append(docs[:2], rest[:n-2]...)
 	}
 	return docs
